@@ -72,7 +72,7 @@ func (set *SortedSliceSet[T]) Equal(other *SortedSliceSet[T]) (ok bool) {
 		return set == other
 	}
 
-	return slices.Equal(set.elems, other.elems)
+	return slices.EqualFunc(set.elems, other.elems, func(a, b T) (ok bool) { return cmp.Compare(a, b) == 0 })
 }
 
 // Has returns true if v is in set.  Calling Has on a nil set returns false,
